@@ -288,6 +288,7 @@ func (w *World) VerifyWith(u *Unit, classes map[string][]string) (res *UnitResul
 	x := &exec{e: e, unitFn: u.Fn, unit: u, siteOrd: map[string]map[ssa.Instruction]int{}, loopsOf: map[*ssa.Function]*loopInfo{},
 		callOrd: map[*ssa.Function]map[ssa.Instruction]int{}, closures: map[string]*closureInfo{}, calleeNameCache: map[string]string{}}
 	e.curUnit = u
+	e.x = x
 	fn := u.Fn
 	st := &State{locals: map[*ssa.Alloc]Value{}, regs: map[ssa.Value]Value{}, heap: map[string]smt.Term{}}
 	clk0 := e.ctx.Const("clk0", smt.Int)
@@ -458,6 +459,11 @@ func (w *World) VerifyWith(u *Unit, classes map[string][]string) (res *UnitResul
 				}
 			}
 		}
+		for _, cs := range u.Spec.Cuts {
+			if !x.sawCut[cs] {
+				res.StaleCallSites = append(res.StaleCallSites, fmt.Sprintf("cutafter %s#%d", cs.Callee, cs.Ordinal))
+			}
+		}
 		for _, ls := range u.Spec.Loops {
 			found := false
 			for _, lp := range fr.loops.list {
@@ -590,6 +596,7 @@ func (x *exec) atReturn(st *State, u *Unit, rets []Value, captured []captVar, nr
 		e.obligation(st, "post", clauseName(cl, i), cl.Tag, cl.Text, cl.Pos.String(), g)
 	}
 	x.refinementCheck(st, u, rets)
+	x.typeInvAtReturn(st, u)
 	x.frameCheck(st, u, "")
 }
 
